@@ -104,7 +104,24 @@ def check_case(case, ctx):
         return check_xlarge(case, ctx)
     ds, sch = case["ds"], case["scheme"]
     common.set_case(ctx, case)
+    if ctx.index < 10 and "C" not in ctx.mode:
+        batch = algos.pickled_batch(ctx)
+        if ctx.index < len(batch) and batch[ctx.index][1] is not None:
+            raw_p, d_p = batch[ctx.index]
+            scheme_p = libx.mk_scheme(ref.PRESETS["unifying"])
+            for cfg in ("BioConsert", "Borda", "Copeland", "KwikSort", "ParCons", "PickAPerm", "BioCo"):
+                ctx.count("runs_on_datasets_pickled_by_another_interpreter")
+                judge_run(ctx, cfg, d_p, raw_p, scheme_p, ref.PRESETS["unifying"], True, case["libseed"],
+                          {"dataset_pickled_by_another_interpreter": True})
     dataset = libx.mk_dataset(ds)
+    if case["libseed"] % 7 == 0 and case.get("dcls") != "huge-component":
+        # the same rankings given to the Ranking constructor in other valid forms (generators, map objects, tuples)
+        import random
+        rf = random.Random(case["libseed"])
+        st_f, d_f = call(libx.mk_dataset_forms, ds, [rf.choice(libx.FORMS) for _ in ds])
+        if st_f == "ok":
+            dataset = d_f
+            ctx.count("datasets_built_from_other_input_forms")
     scheme = libx.mk_scheme(sch)
     ctx.count("class:" + case.get("dcls", "?"))
     any_ilp = False
@@ -194,6 +211,12 @@ def reach(counters, tier, info):
         v = counters.get("history:" + kind, 0)
         req = 25 if tier == "quick" else 250
         out.append({"name": f"histories whose step is {kind}", "observed": v, "required": req, "ok": v >= req})
+    v = counters.get("runs_on_datasets_pickled_by_another_interpreter", 0)
+    out.append({"name": "runs on string-named datasets pickled by an interpreter with another hash seed", "observed": v,
+                "required": 200 if tier == "quick" else 800, "ok": v >= (200 if tier == "quick" else 800)})
+    v = counters.get("datasets_built_from_other_input_forms", 0)
+    out.append({"name": "datasets whose rankings were given as generators / map objects / tuples", "observed": v,
+                "required": 60 if tier == "quick" else 600, "ok": v >= (60 if tier == "quick" else 600)})
     v = counters.get("runs_on_reshape_twins", 0)
     out.append({"name": "runs on reshape twins (same matrix content, other shape) in a row", "observed": v,
                 "required": 500 if tier == "quick" else 5000, "ok": v >= (500 if tier == "quick" else 5000)})
